@@ -218,6 +218,10 @@ func runDetermBatch(payload []*Sx) *Sx {
 	for i := 0; i < reps; i++ {
 		out := runBatch(payload)
 		s := L(out.List[0], out.List[1], out.List[2]).String()
+		if out.List[0].String() != "(status ok)" {
+			// a failing batch stops at an enumeration point that depends on the order in which Go's map yields the variables: the verdict counts
+			s = out.List[0].String()
+		}
 		if i == 0 {
 			first = s
 		} else if s != first {
